@@ -142,13 +142,22 @@ def run(F, R):
         muts = [b2 for b2, t2 in bi_.calls() if dcl and b2 in bi_.reach_from(dcl) and b2 not in dcl and any(("Intermediate" in bi_.crate.types[ty]["s"] and bi_.crate.types[ty].get("k") == "ref" and bi_.crate.types[ty].get("m")) for ty in t2.get("argt", []))]
         R.check("C03-R3", "intermediate-untouched-after-decoration", not [w for w in iw if dcl and w[0] in bi_.reach_from(dcl)] and not muts, "no write to the Intermediate after decorate_request",
                 "the Intermediate is modified after decoration (%s): the wire body differs from the retained request body" % ([w[1] for w in iw] + [lib.loc(bi_, m) for m in muts]))
-        d2 = [(b2, t2) for b2, t2 in bi_.calls() if t2.get("trait") == "cup_ecdsa::Cupv2RequestHandler" and t2["name"] == "decorate_request"]
+        # the decoration may be called directly or inside a closure handed to Option::map: take it from the event skeleton
+        d2 = [S.nodes[x] for x in sm.env(S, "Cup", "decorate_request") if any(cx_.bv is bi_ for cx_ in _ancestors(S.nodes[x].ctx))]
         if R.floor("C03-R3", "decorate_request call in build_intermediate", len(d2), 1):
-            tgt = terms._unref(bi_.trace_op(d2[0][1]["args"][1]))
+            nd2 = d2[0]
+            bctx = [cx_ for cx_ in _ancestors(nd2.ctx) if cx_.bv is bi_][0]
+            tgt = terms._unref(S.trace(nd2, nd2.term["args"][1]))
+            if nd2.ctx is not bctx:
+                # resolved up to the function's own terms
+                pass
             rt = [x for x in walk(bi_.trace_local(0)) if x[0] == "agg" and x[1] == "tuple" and len(x[3]) == 2]
             same = False
             if rt:
-                same = terms._unref(rt[0][3][0]) == tgt and tgt[0] == "agg" and tgt[2] and tgt[2].endswith("Intermediate::Intermediate")
+                mine = terms._unref(rt[0][3][0])
+                tg2 = tgt
+                # compare within build_intermediate: an upvar resolves to the captured operand of the closure aggregate
+                same = (repr(mine) == repr(tg2) or repr(S.resolve(bctx, mine)) == repr(tg2)) and mine[0] == "agg" and mine[2] and mine[2].endswith("Intermediate::Intermediate")
             R.check("C03-R3", "decorated-value-is-returned", same, "the Intermediate handed to decorate_request is the one returned", "decorate_request is applied to a different Intermediate than the one sent")
     # metadata reaches the installer from the winning attempt
     for n_ in sm.env(Sc, "Installer", "try_create_install_plan"):
@@ -167,6 +176,8 @@ def run(F, R):
         sub = nd_.ctx.bv.switch_subject(nd_.bi)
         if "Cupv2RequestHandler" in nd_.ctx.bv.crate.types[sub[1]]["s"] and "Some" not in nm:
             noh.append((a, b))
+    # .. also when it is spelt `cup_handler.map(|h| h.decorate_request(..))`: skipping the closure is the no-handler case
+    noh += S.bypass_edges(lambda t, cid, bv_: lib.norm(t.get("callee") or "") in ("std::option::Option::<T>::map", "std::option::Option::<T>::and_then") and t.get("argt") and "Cupv2RequestHandler" in bv_.crate.types[t["argt"][0]]["s"])
     R.floor("C03-R4", "no-handler edges (excluded)", len(noh), 1)
     if R.floor("C03-R4", "sends / decorations in the long-running loop", min(len(reqs), len(decs)), 3):
         stale = []
@@ -218,6 +229,12 @@ def run(F, R):
         if R.floor("C03-R5", "Intermediate construction", len(ag), 1):
             u = terms.render(bi_, ag[0][3][ag[0][4].index("uri")], W, {1: "self"})
             R.check("C03-R5", "service-url", u == "self.config.service_url", u, "request URI <- %s" % u)
+
+
+def _ancestors(cx):
+    while cx is not None:
+        yield cx
+        cx = cx.parent
 
 
 def _k(nd):
